@@ -5,12 +5,14 @@ from .ec import *
 from .hashes import Drbg
 from . import zkp
 
+_GENS = []; _GENS_DRBG = []
 def gens(k):
-    """first k generators: generator_generate applied to successive 32-byte outputs of the RFC 6979 DRBG keyed with G.x || G.y"""
-    d = Drbg(b32(Gx) + b32(Gy)); out = []
-    for _ in range(k):
-        ok, P = zkp.generate(d.gen(32)); out.append(P)
-    return out
+    """first k generators: generator_generate applied to successive 32-byte outputs of the RFC 6979 DRBG keyed with G.x || G.y
+    (memoised: the list is prefix-consistent by construction)"""
+    if not _GENS_DRBG: _GENS_DRBG.append(Drbg(b32(Gx) + b32(Gy)))
+    while len(_GENS) < k:
+        ok, P = zkp.generate(_GENS_DRBG[0].gen(32)); _GENS.append(P)
+    return list(_GENS[:k])
 def gens_ser(pts): return b''.join(zkp.gen_ser(P) for P in pts)
 def gens_parse(b):
     if len(b) % 33: return None
